@@ -26,6 +26,8 @@ func init() {
 			})
 			c.run("C05-R8", "MUST-PASS: the wrapper's pumps hand on exactly what they read and end only on EOF", c05R8)
 			c.run("C05-R7", "ORDER: exit status passed on", c05R7)
+			c.run("C05-S2", "shared with C19-R1: header detection and the five-CAN cancel marker", c19R1)
+			c.run("C05-S1", "shared with C06-R3: the words that mark a finished transfer in scroll-back are the words the servers print (a replayed, finished handshake stays plain output)", c06R3)
 		})
 }
 
